@@ -286,11 +286,16 @@ func genCase(seed uint64, idx int, tr tiers) Data {
 	first := poolItem{}
 	for i := 0; i < nprog; i++ {
 		var it poolItem
-		switch r.Weighted([]int{4, 3, 3}) {
+		switch r.Weighted([]int{4, 3, 3, 2}) {
 		case 0:
 			it = pl.items[r.Intn(len(directed))]
 		case 1:
 			it = pl.items[r.Intn(len(pl.items))]
+		case 3:
+			it = pl.items[r.Intn(len(pl.items))]
+			if m := workload.MutateProgram(r, it.p.Src); workload.Deterministic(m) {
+				it.p.Src = m
+			}
 		default:
 			src, in := g.Program()
 			it = poolItem{ProgSpec{Src: src}, in}
